@@ -57,6 +57,7 @@ type Op struct {
 	Stretch float32  `json:"stretch,omitempty"`
 	Fonts   []int    `json:"fonts,omitempty"` // pool indexes (fixed font list of "split")
 	Dmg     []Damage `json:"dmg,omitempty"`   // damaged variants of the font file ("parsedamaged")
+	Mut     int      `json:"mut,omitempty"`   // "outline": what the goroutine does, in place, to the outline it received (1 Sideways(Size), 2 move the points, 3 wipe)
 	Ptem    float32  `json:"ptem,omitempty"`  // point size of the hb font ("probe": AAT tracking)
 	Flags   int      `json:"flags,omitempty"` // harfbuzz.ShappingOptions of "hbshape"
 	Level   int      `json:"level,omitempty"` // harfbuzz.ClusterLevel of "hbshape"
@@ -315,6 +316,41 @@ func (o *out) glyphData(gd font.GlyphData) {
 	}
 }
 
+// mutateOutline modifies, in place, the outline part of a glyph the caller received. (The byte
+// slices of bitmap and SVG glyphs are left alone: in the library under test they are
+// views of the font's tables.)
+func mutateOutline(gd font.GlyphData, kind int, off float32) {
+	var ol font.GlyphOutline
+	switch gd := gd.(type) {
+	case font.GlyphOutline:
+		ol = gd
+	case font.GlyphBitmap:
+		if gd.Outline == nil {
+			return
+		}
+		ol = *gd.Outline
+	case font.GlyphSVG:
+		ol = gd.Outline
+	default:
+		return
+	}
+	switch kind {
+	case 1:
+		ol.Sideways(off)
+	case 2:
+		for i := range ol.Segments {
+			for j := range ol.Segments[i].Args {
+				ol.Segments[i].Args[j].X += 1000
+				ol.Segments[i].Args[j].Y = -ol.Segments[i].Args[j].Y
+			}
+		}
+	case 3:
+		for i := range ol.Segments {
+			ol.Segments[i] = font.Segment{}
+		}
+	}
+}
+
 // loaded writes the signature of a load: the error, or a few facts about every face (the glyphs
 // of gids are decoded through the new face, which nobody else knows).
 func (o *out) loaded(faces []*font.Face, err error, gids []uint32) {
@@ -564,13 +600,20 @@ func (st *gstate) exec(op Op) (res []byte, panicMsg string) {
 		}
 
 	case kOutline:
+		// What GlyphData returns is the caller's: the result is recorded first, then the
+		// goroutine may modify the outline it received in place (as a renderer does with
+		// GlyphOutline.Sideways). Nobody else, and no later query, may see that.
 		face := st.face(f)
 		for _, g := range op.G {
-			o.glyphData(face.GlyphData(font.GID(g)))
+			gd := face.GlyphData(font.GID(g))
+			o.glyphData(gd)
+			mutateOutline(gd, op.Mut, float32(op.Size))
 		}
 		if len(op.G) > 0 { // and the A glyphs that follow the first one (a run of text being rendered)
 			for i := 1; i <= op.A; i++ {
-				o.glyphData(face.GlyphData(font.GID(op.G[0]) + font.GID(i)))
+				gd := face.GlyphData(font.GID(op.G[0]) + font.GID(i))
+				o.glyphData(gd)
+				mutateOutline(gd, op.Mut, float32(op.Size))
 			}
 		}
 
